@@ -19,6 +19,15 @@ CHECKS = {
  'C07': ('model_checking', 'A', 'explicit-state exploration with work/stack/cache meters on every public call; step-count ladder through sdeint',
          "Every public call over the full constructor product (sizes x Levy modes x cache 0/1/2/45/None x dt hints x tol x halfway x supplied W/H), micro histories incl. 1-ulp and sub-tolerance queries, sweeps across the warm-up with <=2 deviations, and sdeint ladders up to 25000 (thorough 60000) steps returns normally within a node-creation budget, with frame depth at node creation inside a logarithmic allowance and cache entries <= cache_size.",
          "non-termination is decided by a deterministic work budget; the frame-depth allowance (200 + 8 log2(T/res)) is a judgement well above the dyadic recursion the design needs and well below the recursion limit"),
+ 'C12': ('exploration', 'B', 'exhaustive enumeration of output-time subsets of a dyadic lattice x dt x cells against the grid trajectory of the solver\'s own step',
+         "For every subset (size>=2) of the lattice as ts, every dt of the alphabet, every supported solver/noise cell (incl. grad-free Milstein), float32/float64, ts as tensor or list: ys[0] is y0 bitwise, outputs at grid times are the grid states bitwise, outputs inside a step are the linear interpolants, the Brownian queries are exactly the dt-grid steps, values at shared times are invariant under changing other output times, shape/dtype are right.",
+         "dyadic lattice so that the reference grid equals the library's grid bit-for-bit; reference trajectory uses the library's step (C02 covers step)"),
+ 'C13': ('fault_enumeration', 'B', 'exhaustive enumeration of restart-point sets (all 2^(N-1) chunkings) against the one-shot solve, bitwise',
+         "Every subset of interior grid points as restart points, every supported cell, extra solver state threaded through extra=True/extra_solver_state, dense and end-point-only outputs: all shared values and the final extra state are torch.equal to the one-shot solve.",
+         "restart points on the step grid (as the property requires); N=6 quick, 8 thorough"),
+ 'C14': ('model_checking', 'B', 'stateless exploration of the adaptive controller under scripted error answers (full product of length L, deviation bound 2), trial log parsed from a recording Brownian proxy',
+         "Every controller decision sequence within the bounds terminates (trial cap 2000), tiles [ts[0],ts[-1]] contiguously and ends exactly at ts[-1], respects dt_min except for the clipped last trial, accepts iff error<=1 or dt_min reached, retries rejected trials strictly smaller, and returns the two-half-step solution on the accepted steps (bitwise) with interpolated interior outputs; the error norm equals an independent implementation on an exhaustive grid; true error does not increase along tolerance ladders on GBM families.",
+         "error answers from a 6-letter alphabet; 4 solver cells; the ladder uses 64 fixed paths and a factor-2 slack"),
 }
 def main():
     checks = []
